@@ -1441,6 +1441,313 @@ fn run_history(case: &Value) -> Value {
            "initial_post": initial_post})
 }
 
+
+// ---------------------------------------------------------------------------
+// Import kind: what go_online makes of peers + crates.io (C07, C08, C06).
+
+fn s_live(it: &Interner, live: &ImportsFile) -> String {
+    let names = |k: &str| it.name(k).to_string();
+    let imports: Vec<String> = live
+        .audits
+        .values()
+        .enumerate()
+        .map(|(idx, f)| {
+            let a: Vec<String> = f
+                .audits
+                .iter()
+                .map(|(k, l)| {
+                    let mut v = vec![names(k)];
+                    v.extend(l.iter().map(|a| s_audit(it, a)));
+                    sp("p", v)
+                })
+                .collect();
+            let w: Vec<String> = f
+                .wildcard_audits
+                .iter()
+                .map(|(k, l)| {
+                    let mut v = vec![names(k)];
+                    v.extend(l.iter().map(|w| {
+                        sp(
+                            "w",
+                            vec![
+                                w.user_id.to_string(),
+                                day(*w.start).to_string(),
+                                day(*w.end).to_string(),
+                                sp("c", w.criteria.iter().map(|c| it.crit(c).to_string()).collect()),
+                                sb(w.is_fresh_import),
+                            ],
+                        )
+                    }));
+                    sp("p", v)
+                })
+                .collect();
+            sp("import", vec![idx.to_string(), sp("audits", a), sp("wildcards", w)])
+        })
+        .collect();
+    let publisher: Vec<String> = live
+        .publisher
+        .iter()
+        .map(|(k, l)| {
+            let mut v = vec![names(k)];
+            v.extend(l.iter().map(|p| {
+                sp(
+                    "pub",
+                    vec![
+                        it.ver(&p.version).to_string(),
+                        p.user_id.to_string(),
+                        day(p.when).to_string(),
+                        sb(p.is_fresh_import),
+                    ],
+                )
+            }));
+            sp("p", v)
+        })
+        .collect();
+    let unpublished: Vec<String> = live
+        .unpublished
+        .iter()
+        .map(|(k, l)| {
+            let mut v = vec![names(k)];
+            v.extend(l.iter().map(|u| {
+                sp(
+                    "u",
+                    vec![
+                        it.ver(&u.version).to_string(),
+                        it.ver(&u.audited_as).to_string(),
+                        sb(u.is_fresh_import),
+                        sb(u.still_unpublished),
+                    ],
+                )
+            }));
+            sp("p", v)
+        })
+        .collect();
+    sp(
+        "live",
+        vec![sp("imports", imports), sp("publisher", publisher), sp("unpublished", unpublished)],
+    )
+}
+
+fn per_name<T>(it: &Interner, m: &SortedMap<String, Vec<T>>, f: impl Fn(&T) -> Value) -> Value {
+    Value::Array(
+        m.iter()
+            .map(|(k, l)| pair(json!(it.name(k)), Value::Array(l.iter().map(&f).collect())))
+            .collect(),
+    )
+}
+
+fn run_import(case: &Value) -> Value {
+    let metadata = build_metadata(&case["graph"]);
+    let cfg = mock_cfg(&metadata);
+    let st = &case["store"];
+    let parsed = match Store::mock_acquire(
+        st["config"].as_str().unwrap(),
+        st["audits"].as_str().unwrap(),
+        st["imports"].as_str().unwrap(),
+        mock_today(),
+        false,
+    ) {
+        Ok(s) => s,
+        Err(e) => {
+            let e = format!("{e:?}");
+            return json!({"status": "refused", "error_kind": error_kind(&e), "error": e});
+        }
+    };
+    // the peer files after cargo-vet's own tolerant per-entry parsing, per import and URL
+    let mut sources: Vec<(String, Vec<Option<AuditsFile>>)> = Vec::new();
+    let mut extra_versions = Vec::new();
+    let mut extra_names = BTreeSet::new();
+    for (name, import) in &parsed.config.imports {
+        let mut files = Vec::new();
+        for url in &import.url {
+            let text = case["peers"][url].as_str().unwrap_or("").to_owned();
+            let f = crate::storage::foreign_audit_source_to_local_warn(
+                name,
+                crate::errors::SourceFile::new(url, text),
+            )
+            .ok();
+            if let Some(f) = &f {
+                let mut vs = BTreeSet::new();
+                collect_audit_versions(&mut vs, f);
+                extra_versions.extend(vs);
+                extra_names.extend(f.audits.keys().cloned());
+                extra_names.extend(f.wildcard_audits.keys().cloned());
+            }
+            files.push(f);
+        }
+        sources.push((name.clone(), files));
+    }
+    if let Some(reg) = case["registry"]["packages"].as_object() {
+        for (_, versions) in reg {
+            for v in versions.as_array().unwrap() {
+                extra_versions.push(VetVersion {
+                    semver: v["version"].as_str().unwrap().parse().unwrap(),
+                    git_rev: None,
+                });
+            }
+        }
+    }
+    let network = build_network(case);
+    let config = parsed.config.clone();
+    let audits = parsed.audits.clone();
+    let imports = parsed.imports.clone();
+    let online = catch_unwind(AssertUnwindSafe(|| {
+        Store::mock_online(
+            &cfg,
+            config,
+            audits,
+            imports,
+            &network,
+            case["allow_criteria_changes"].as_bool().unwrap_or(true),
+        )
+    }));
+    let mut it = make_interner(&metadata, &parsed, &extra_versions);
+    {
+        let mut names: BTreeSet<String> = it.names.iter().cloned().collect();
+        names.extend(extra_names);
+        if let Ok(Ok(s)) = &online {
+            names.extend(make_interner(&metadata, s, &[]).names);
+        }
+        it.names = names.into_iter().collect();
+    }
+
+    // ---- model input
+    let foreign_names = |f: &AuditsFile| -> Vec<String> {
+        ["safe-to-run".to_owned(), "safe-to-deploy".to_owned()]
+            .into_iter()
+            .chain(f.criteria.keys().cloned())
+            .collect()
+    };
+    let m_imports: Vec<Value> = sources
+        .iter()
+        .map(|(name, files)| {
+            let import = &parsed.config.imports[name];
+            let srcs: Vec<Value> = files
+                .iter()
+                .map(|f| {
+                    let empty = AuditsFile::default();
+                    let f = f.as_ref().unwrap_or(&empty);
+                    let fnames = foreign_names(f);
+                    let fit = Interner {
+                        names: it.names.clone(),
+                        versions: it.versions.clone(),
+                        criteria: fnames.clone(),
+                    };
+                    let cmap: Vec<Value> = import
+                        .criteria_map
+                        .iter()
+                        .filter_map(|(k, l)| {
+                            fnames
+                                .iter()
+                                .position(|n| n == &**k)
+                                .map(|i| pair(json!(i), it.crits(l)))
+                        })
+                        .collect();
+                    let table = Value::Array(
+                        f.criteria.values().map(|e| fit.crits(&e.implies)).collect(),
+                    );
+                    pair(
+                        Value::Array(cmap),
+                        c(
+                            "Build_peer_file",
+                            vec![
+                                table,
+                                per_name(&it, &f.audits, |a| m_audit(&fit, a)),
+                                per_name(&it, &f.wildcard_audits, |w| m_wildcard(&fit, w)),
+                            ],
+                        ),
+                    )
+                })
+                .collect();
+            let empty = AuditsFile::default();
+            let lock = parsed.imports.audits.get(name).unwrap_or(&empty);
+            c(
+                "Build_import_cfg",
+                vec![
+                    Value::Array(import.exclude.iter().map(|n| json!(it.name(n))).collect()),
+                    Value::Array(srcs),
+                    per_name(&it, &lock.audits, |a| m_audit(&it, a)),
+                    per_name(&it, &lock.wildcard_audits, |w| m_wildcard(&it, w)),
+                ],
+            )
+        })
+        .collect();
+    let reg = &case["registry"]["packages"];
+    let crates: Vec<Value> = it
+        .names
+        .iter()
+        .map(|n| {
+            let third = metadata
+                .packages
+                .iter()
+                .any(|p| &p.name == n && p.is_third_party(&parsed.config.policy));
+            let audit_as: Vec<Value> = crate::first_party_packages_strict(&metadata, &parsed.config)
+                .filter(|p| &p.name == n && p.is_third_party(&parsed.config.policy) && p.git_rev().is_none())
+                .map(|p| json!(it.ver(&p.vet_version())))
+                .collect();
+            let regv: Vec<Value> = reg[n]
+                .as_array()
+                .into_iter()
+                .flatten()
+                .map(|v| {
+                    c(
+                        "Build_reg_version",
+                        vec![
+                            json!(it.ver(&VetVersion {
+                                semver: v["version"].as_str().unwrap().parse().unwrap(),
+                                git_rev: None
+                            })),
+                            opt(v["by"].as_u64().map(|u| json!(u))),
+                            z(day(v["when"].as_str().unwrap().parse().unwrap())),
+                            json!(true),
+                        ],
+                    )
+                })
+                .collect();
+            c(
+                "Build_crate_info",
+                vec![
+                    json!(it.name(n)),
+                    json!(third),
+                    json!(parsed.audits.wildcard_audits.contains_key(n)),
+                    json!(parsed.audits.trusted.contains_key(n)),
+                    opt(parsed
+                        .imports
+                        .publisher
+                        .get(n)
+                        .map(|l| Value::Array(l.iter().map(|p| m_publisher(&it, p)).collect()))),
+                    Value::Array(regv),
+                    list(parsed.imports.unpublished.get(n), |u| m_unpublished(&it, u)),
+                    Value::Array(audit_as),
+                ],
+            )
+        })
+        .collect();
+    let model_in = json!({
+        "table": m_ctable(&it, &parsed),
+        "imports": m_imports,
+        "crates": crates,
+    });
+    let tables = json!({
+        "names": it.names,
+        "versions": it.versions.iter().map(|v| v.to_string()).collect::<Vec<_>>(),
+        "criteria": it.criteria,
+        "imports": parsed.config.imports.keys().collect::<Vec<_>>(),
+    });
+    match online {
+        Ok(Ok(store)) => {
+            let live = store.live_imports.as_ref().unwrap();
+            json!({"status": "ok", "model_input": model_in, "tables": tables, "obs": s_live(&it, live)})
+        }
+        Ok(Err(e)) => {
+            let e = format!("{e:?}");
+            json!({"status": "refused", "model_input": model_in, "tables": tables,
+                   "error_kind": error_kind(&e), "error": e.chars().take(600).collect::<String>()})
+        }
+        Err(p) => json!({"status": "panic", "model_input": model_in, "tables": tables, "panic": panic_message(&p)}),
+    }
+}
+
 fn panic_message(p: &Box<dyn std::any::Any + Send>) -> String {
     if let Some(s) = p.downcast_ref::<String>() {
         s.clone()
@@ -1458,6 +1765,7 @@ fn run_case(case: &Value) -> Value {
     let r = catch_unwind(AssertUnwindSafe(|| match kind {
         "resolve" => run_resolve(case),
         "history" => run_history(case),
+        "import" => run_import(case),
         other => json!({"status": "harness_error", "error": format!("unknown kind {other}")}),
     }));
     let mut v = match r {
